@@ -47,6 +47,7 @@ def main():
     meta = {"seed_id": seed_id, "properties_targeted": props, "ran": []}
     # clean scratch worktree
     sh(["git", "checkout", "--", "src"], cwd=wt)
+    sh(["git", "clean", "-fq", "tests"], cwd=wt)  # demo copies left behind are not part of the suite
     for f in os.listdir(os.path.join(wt, "tests")):
         if f.startswith("seeded_demo"):
             os.remove(os.path.join(wt, "tests", f))
@@ -103,7 +104,8 @@ def main():
             m = re.match(r"VIOLATION property=\S+ replay=(\S+)", l)
             if m and os.path.exists(m.group(1)):
                 ext = ".replay" if m.group(1).endswith(".replay") else os.path.splitext(m.group(1))[1]
-                shutil.copy(m.group(1), os.path.join(d, "detected" + ext))
+                if os.path.abspath(m.group(1)) != os.path.abspath(os.path.join(d, "detected" + ext)):
+                    shutil.copy(m.group(1), os.path.join(d, "detected" + ext))
                 meta["saved_replay"] = "detected" + ext
                 break
         if "saved_replay" in meta:
